@@ -66,8 +66,8 @@ def run_invocation(proj: dict, inv: dict, src: str, bdir: str, logp: str, shake:
     # pids still alive after meson test has returned (then clean them up)
     alive = []
     for e in evs:
-        if e.get('ev') == 'START' and _probe_alive(e['pid'], logp):
-            alive.append({'pid': e['pid'], 'id': e['id'], 'it': e['it']})
+        if e.get('ev') in ('START', 'CSTART') and _probe_alive(e['pid'], logp):
+            alive.append({'pid': e['pid'], 'id': e['id'], 'it': e['it'], 'helper': e['ev'] == 'CSTART'})
     for a in alive:
         try:
             os.kill(a['pid'], signal.SIGKILL)
@@ -155,6 +155,8 @@ def directed_invocations(profile: str) -> T.List[dict]:
         return [dict(b, j=3), dict(b, j=8)]
     if profile == 'victims':
         return [dict(b, j=3, tmult=0.3)]
+    if profile == 'leaky':
+        return [dict(b, j=3, tmult=0.3), dict(b, j=1)]
     if profile == 'maxfail-race':
         return [dict(b, j=8, maxfail=1)]
     if profile == 'mixed':
@@ -280,14 +282,16 @@ def main() -> int:
                        ('monitor:kill_reported', 1), ('cov:result_TIMEOUT', 1), ('cov:job_bound_saturated', 1),
                        ('cov:all_good_run', 1), ('cov:timeout_kw_negative', 5), ('cov:timeout_kw_zero', 5),
                        ('cov:timeout_kw_negative_with_multiplier', 1), ('cov:nolimit_test_non_OK_classification', 1),
-                       ('cov:classified_tests_in_suites', 20), ('cov:suite_selection', 1)):
+                       ('cov:classified_tests_in_suites', 20), ('cov:suite_selection', 1),
+                       ('monitor:limit_passed', 2), ('cov:leaky_victim_TIMEOUT', 1), ('monitor:helpers_seen', 2),
+                       ('cov:leaky_sigterm_ignoring_helper_probe', 1)):
         chk.require(m, minimum)
     chk.require('runs_conclusive', int(0.6 * cfg['projects'] * cfg['per_project']))
     if chk.tier == 'thorough':
         chk.require('diag:shake_sleeps', 1)
     return chk.finish(
         rule='one case = one `meson test` invocation (project x options); distinct by (project, options, observed '
-             'START order of the probes); projects drawn from 10 adversarial duration/ordering profiles',
+             'START order of the probes); projects drawn from 12 adversarial duration/ordering profiles',
         assumptions=['time.monotonic_ns() is one system-wide clock (CLOCK_MONOTONIC) shared by all probes',
                      'a probe interval [START, END|TERM] lies inside the process lifetime, so interval overlap '
                      'implies real overlap; absence of overlap in the log does not prove absence of real overlap',
